@@ -29,6 +29,9 @@ macro_rules! properties {
 
 properties! {
     "C01" => c01,
+    "C02" => c02,
+    "C03" => c03,
+    "C04" => c04,
     "C06" => c06,
     "C10" => c10,
     "C14" => c14,
